@@ -486,4 +486,1142 @@ theorem cutAt_take : ∀ (ends : List Nat) (d : Bytes) (pos m : Nat), monotoneFr
     rw [take_take_le d m (e - pos) (by omega), List.drop_take, ih _ _ _ hm.2 (by omega)]
 
 
+open Redb.Key Redb.Spec Redb.BTree
+
+/-! ## leaf pages: the decoder in named pieces -/
+
+/-- start of the key section of a leaf with `n` pairs -/
+def leafKss (kw vw : Option Nat) (n : Nat) : Nat :=
+  4 + (if kw.isNone then 4 * n else 0) + (if vw.isNone then 4 * n else 0)
+
+def leafKeyEnds (kw vw : Option Nat) (page : Bytes) : List Nat :=
+  match kw with
+  | some w => fixedEnds (leafKss kw vw (u16At page 2)) w (u16At page 2)
+  | none => readU32s (u16At page 2) (page.drop 4)
+
+def leafKeyEndLast (kw vw : Option Nat) (page : Bytes) : Nat :=
+  (leafKeyEnds kw vw page).getLastD (leafKss kw vw (u16At page 2))
+
+def leafValEnds (kw vw : Option Nat) (page : Bytes) : List Nat :=
+  match vw with
+  | some v => fixedEnds (leafKeyEndLast kw vw page) v (u16At page 2)
+  | none => readU32s (u16At page 2) (page.drop (4 + (if kw.isNone then 4 * u16At page 2 else 0)))
+
+def leafUsed (kw vw : Option Nat) (page : Bytes) : Nat :=
+  (leafValEnds kw vw page).getLastD (leafKeyEndLast kw vw page)
+
+def leafEntries (kw vw : Option Nat) (page : Bytes) : List Entry :=
+  (cutAt (page.drop (leafKss kw vw (u16At page 2))) (leafKss kw vw (u16At page 2)) (leafKeyEnds kw vw page)).zip
+    (cutAt (page.drop (leafKeyEndLast kw vw page)) (leafKeyEndLast kw vw page) (leafValEnds kw vw page))
+
+theorem decodeLeaf_eq (kw vw : Option Nat) (page : Bytes) :
+    decodeLeaf kw vw page =
+      if page.length < 4 || byteAt page 0 != 1 then none else
+      if u16At page 2 == 0 || page.length < leafKss kw vw (u16At page 2) then none else
+      if !(monotoneFrom (leafKss kw vw (u16At page 2)) (leafKeyEnds kw vw page ++ leafValEnds kw vw page))
+          || leafUsed kw vw page > page.length then none else
+      some { entries := leafEntries kw vw page, used := leafUsed kw vw page } := by
+  cases kw <;> cases vw <;> rfl
+
+/-- the conditions under which a leaf page decodes -/
+structure LeafOk (kw vw : Option Nat) (page : Bytes) : Prop where
+  len : 4 ≤ page.length
+  type : byteAt page 0 = 1
+  nonempty : u16At page 2 ≠ 0
+  kss : leafKss kw vw (u16At page 2) ≤ page.length
+  mono : monotoneFrom (leafKss kw vw (u16At page 2)) (leafKeyEnds kw vw page ++ leafValEnds kw vw page) = true
+  used : leafUsed kw vw page ≤ page.length
+
+theorem decodeLeaf_some_iff (kw vw : Option Nat) (page : Bytes) (lf : LeafPage) :
+    decodeLeaf kw vw page = some lf ↔
+      LeafOk kw vw page ∧ lf = { entries := leafEntries kw vw page, used := leafUsed kw vw page } := by
+  rw [decodeLeaf_eq]
+  constructor
+  · intro h
+    split at h
+    · cases h
+    rename_i h1
+    split at h
+    · cases h
+    rename_i h2
+    split at h
+    · cases h
+    rename_i h3
+    simp only [Bool.or_eq_true, decide_eq_true_eq, bne_iff_ne, ne_eq, not_or, Nat.not_lt,
+      Decidable.not_not, beq_iff_eq, Bool.not_eq_true', Bool.not_eq_false, gt_iff_lt] at h1 h2 h3
+    exact ⟨⟨h1.1, h1.2, h2.1, h2.2, h3.1, h3.2⟩, by cases h; rfl⟩
+  · rintro ⟨⟨a, b, c, d, e, f⟩, rfl⟩
+    rw [if_neg, if_neg, if_neg]
+    · simp [e]; omega
+    · simp [c]; omega
+    · simp [b]; omega
+
+
+open Redb.Key Redb.Spec Redb.BTree
+
+theorem leafKss_ge (kw vw : Option Nat) (n : Nat) : 4 ≤ leafKss kw vw n := by
+  unfold leafKss; omega
+
+/-- the order facts a decodable leaf satisfies: `4 ≤ kss ≤ key_end(last) ≤ used` -/
+theorem LeafOk.bounds {kw vw : Option Nat} {page : Bytes} (h : LeafOk kw vw page) :
+    monotoneFrom (leafKss kw vw (u16At page 2)) (leafKeyEnds kw vw page) = true ∧
+    monotoneFrom (leafKeyEndLast kw vw page) (leafValEnds kw vw page) = true ∧
+    leafKss kw vw (u16At page 2) ≤ leafKeyEndLast kw vw page ∧
+    leafKeyEndLast kw vw page ≤ leafUsed kw vw page := by
+  have hm := h.mono
+  rw [monotoneFrom_append, Bool.and_eq_true] at hm
+  exact ⟨hm.1, hm.2, monotoneFrom_getLastD _ _ hm.1, monotoneFrom_getLastD _ _ hm.2⟩
+
+theorem leafKeyEnds_take (kw vw : Option Nat) (page : Bytes) (m : Nat)
+    (hm : leafKss kw vw (u16At page 2) ≤ m) :
+    leafKeyEnds kw vw (page.take m) = leafKeyEnds kw vw page := by
+  have h4 := leafKss_ge kw vw (u16At page 2)
+  have hn : u16At (page.take m) 2 = u16At page 2 := u16At_take _ _ _ (by omega)
+  cases kw with
+  | some w => simp only [leafKeyEnds, hn]
+  | none =>
+    simp only [leafKeyEnds, hn]
+    rw [List.drop_take, readU32s_take]
+    simp [leafKss] at hm; omega
+
+theorem leafValEnds_take (kw vw : Option Nat) (page : Bytes) (m : Nat)
+    (hm : leafKss kw vw (u16At page 2) ≤ m) :
+    leafValEnds kw vw (page.take m) = leafValEnds kw vw page := by
+  have h4 := leafKss_ge kw vw (u16At page 2)
+  have hn : u16At (page.take m) 2 = u16At page 2 := u16At_take _ _ _ (by omega)
+  have hk := leafKeyEnds_take kw vw page m hm
+  cases vw with
+  | some v => simp only [leafValEnds, leafKeyEndLast, hn, hk]
+  | none =>
+    simp only [leafValEnds, hn]
+    rw [List.drop_take, readU32s_take]
+    cases kw <;> simp [leafKss] at hm ⊢ <;> omega
+
+theorem leaf_take {kw vw : Option Nat} {page : Bytes} (h : LeafOk kw vw page) (m : Nat)
+    (hm : leafUsed kw vw page ≤ m) (hl : m ≤ page.length) :
+    LeafOk kw vw (page.take m) ∧ leafEntries kw vw (page.take m) = leafEntries kw vw page ∧
+    leafUsed kw vw (page.take m) = leafUsed kw vw page := by
+  obtain ⟨b1, b2, b3, b4⟩ := h.bounds
+  have h4 := leafKss_ge kw vw (u16At page 2)
+  have hkm : leafKss kw vw (u16At page 2) ≤ m := by omega
+  have hn : u16At (page.take m) 2 = u16At page 2 := u16At_take _ _ _ (by omega)
+  have hk := leafKeyEnds_take kw vw page m hkm
+  have hv := leafValEnds_take kw vw page m hkm
+  have hkl : leafKeyEndLast kw vw (page.take m) = leafKeyEndLast kw vw page := by
+    simp only [leafKeyEndLast, hn, hk]
+  have hu : leafUsed kw vw (page.take m) = leafUsed kw vw page := by
+    simp only [leafUsed, hkl, hv]
+  have hlen : (page.take m).length = m := by simp [hl]
+  refine ⟨⟨by omega, ?_, ?_, by rw [hn, hlen]; omega, ?_, by rw [hu, hlen]; omega⟩, ?_, hu⟩
+  · rw [byteAt_take _ _ _ (by omega)]; exact h.type
+  · rw [hn]; exact h.nonempty
+  · rw [hn, hk, hv]; exact h.mono
+  · simp only [leafEntries, hn, hk, hv, hkl, List.drop_take]
+    rw [cutAt_take _ _ _ _ b1 (by unfold leafKeyEndLast at b3 b4; omega),
+      cutAt_take _ _ _ _ b2 (by unfold leafUsed at hm b4; omega)]
+
+/-- a leaf decodes from the covered prefix `page[0 .. used]` alone, to the same result -/
+theorem decodeLeaf_take {kw vw : Option Nat} {page : Bytes} {lf : LeafPage}
+    (h : decodeLeaf kw vw page = some lf) : decodeLeaf kw vw (page.take lf.used) = some lf := by
+  obtain ⟨hok, rfl⟩ := (decodeLeaf_some_iff _ _ _ _).1 h
+  obtain ⟨a, b, c⟩ := leaf_take hok (leafUsed kw vw page) (Nat.le_refl _) hok.used
+  exact (decodeLeaf_some_iff _ _ _ _).2 ⟨a, by simp only [b, c]⟩
+
+theorem decodeLeaf_used_le {kw vw : Option Nat} {page : Bytes} {lf : LeafPage}
+    (h : decodeLeaf kw vw page = some lf) : 4 ≤ lf.used ∧ lf.used ≤ page.length := by
+  obtain ⟨hok, rfl⟩ := (decodeLeaf_some_iff _ _ _ _).1 h
+  obtain ⟨b1, b2, b3, b4⟩ := hok.bounds
+  have h4 := leafKss_ge kw vw (u16At page 2)
+  exact ⟨by simp only; omega, hok.used⟩
+
+
+open Redb.Key Redb.Spec Redb.BTree
+
+/-! ## branch pages: the decoder in named pieces -/
+
+/-- start of the key section of a branch with `n` routing keys -/
+def branchKss (kw : Option Nat) (n : Nat) : Nat :=
+  8 + 24 * (n + 1) + (if kw.isNone then 4 * n else 0)
+
+def branchKeyEnds (kw : Option Nat) (page : Bytes) : List Nat :=
+  match kw with
+  | some w => fixedEnds (branchKss kw (u16At page 2)) w (u16At page 2)
+  | none => readU32s (u16At page 2) (page.drop (8 + 24 * (u16At page 2 + 1)))
+
+def branchUsed (kw : Option Nat) (page : Bytes) : Nat :=
+  (branchKeyEnds kw page).getLastD (branchKss kw (u16At page 2))
+
+def branchChildren (page : Bytes) : List (PageNumber × Bytes) :=
+  ((chunks 8 (u16At page 2 + 1) (page.drop (8 + 16 * (u16At page 2 + 1)))).map
+      (fun b => PageNumber.ofNat (leNat b))).zip (chunks 16 (u16At page 2 + 1) (page.drop 8))
+
+def branchKeys (kw : Option Nat) (page : Bytes) : List Bytes :=
+  cutAt (page.drop (branchKss kw (u16At page 2))) (branchKss kw (u16At page 2)) (branchKeyEnds kw page)
+
+theorem decodeBranch_eq (kw : Option Nat) (page : Bytes) :
+    decodeBranch kw page =
+      if page.length < 8 || byteAt page 0 != 2 then none else
+      if u16At page 2 == 0 || page.length < branchKss kw (u16At page 2) then none else
+      if !(monotoneFrom (branchKss kw (u16At page 2)) (branchKeyEnds kw page))
+          || branchUsed kw page > page.length then none else
+      some { children := branchChildren page, keys := branchKeys kw page, used := branchUsed kw page } := by
+  cases kw <;> rfl
+
+/-- the conditions under which a branch page decodes -/
+structure BranchOk (kw : Option Nat) (page : Bytes) : Prop where
+  len : 8 ≤ page.length
+  type : byteAt page 0 = 2
+  nonempty : u16At page 2 ≠ 0
+  kss : branchKss kw (u16At page 2) ≤ page.length
+  mono : monotoneFrom (branchKss kw (u16At page 2)) (branchKeyEnds kw page) = true
+  used : branchUsed kw page ≤ page.length
+
+theorem decodeBranch_some_iff (kw : Option Nat) (page : Bytes) (br : BranchPage) :
+    decodeBranch kw page = some br ↔
+      BranchOk kw page ∧
+      br = { children := branchChildren page, keys := branchKeys kw page, used := branchUsed kw page } := by
+  rw [decodeBranch_eq]
+  constructor
+  · intro h
+    split at h
+    · cases h
+    rename_i h1
+    split at h
+    · cases h
+    rename_i h2
+    split at h
+    · cases h
+    rename_i h3
+    simp only [Bool.or_eq_true, decide_eq_true_eq, bne_iff_ne, ne_eq, not_or, Nat.not_lt,
+      Decidable.not_not, beq_iff_eq, Bool.not_eq_true', Bool.not_eq_false, gt_iff_lt] at h1 h2 h3
+    exact ⟨⟨h1.1, h1.2, h2.1, h2.2, h3.1, h3.2⟩, by cases h; rfl⟩
+  · rintro ⟨⟨a, b, c, d, e, f⟩, rfl⟩
+    rw [if_neg, if_neg, if_neg]
+    · simp [e]; omega
+    · simp [c]; omega
+    · simp [b]; omega
+
+theorem branchKss_ge (kw : Option Nat) (n : Nat) : 8 + 24 * (n + 1) ≤ branchKss kw n := by
+  unfold branchKss; omega
+
+theorem branchKeyEnds_take (kw : Option Nat) (page : Bytes) (m : Nat)
+    (hm : branchKss kw (u16At page 2) ≤ m) :
+    branchKeyEnds kw (page.take m) = branchKeyEnds kw page := by
+  have h4 := branchKss_ge kw (u16At page 2)
+  have hn : u16At (page.take m) 2 = u16At page 2 := u16At_take _ _ _ (by omega)
+  cases kw with
+  | some w => simp only [branchKeyEnds, hn]
+  | none =>
+    simp only [branchKeyEnds, hn]
+    rw [List.drop_take, readU32s_take]
+    simp [branchKss] at hm; omega
+
+theorem branch_take {kw : Option Nat} {page : Bytes} (h : BranchOk kw page) (m : Nat)
+    (hm : branchUsed kw page ≤ m) (hl : m ≤ page.length) :
+    BranchOk kw (page.take m) ∧ branchChildren (page.take m) = branchChildren page ∧
+    branchKeys kw (page.take m) = branchKeys kw page ∧
+    branchUsed kw (page.take m) = branchUsed kw page := by
+  have b1 := h.mono
+  have b2 : branchKss kw (u16At page 2) ≤ branchUsed kw page := monotoneFrom_getLastD _ _ b1
+  have h4 := branchKss_ge kw (u16At page 2)
+  have hkm : branchKss kw (u16At page 2) ≤ m := by omega
+  have hn : u16At (page.take m) 2 = u16At page 2 := u16At_take _ _ _ (by omega)
+  have hk := branchKeyEnds_take kw page m hkm
+  have hu : branchUsed kw (page.take m) = branchUsed kw page := by
+    simp only [branchUsed, hn, hk]
+  have hlen : (page.take m).length = m := by simp [hl]
+  refine ⟨⟨by omega, ?_, ?_, by rw [hn, hlen]; omega, ?_, by rw [hu, hlen]; omega⟩, ?_, ?_, hu⟩
+  · rw [byteAt_take _ _ _ (by omega)]; exact h.type
+  · rw [hn]; exact h.nonempty
+  · rw [hn, hk]; exact h.mono
+  · simp only [branchChildren, hn, List.drop_take]
+    rw [chunks_take _ _ _ _ (by omega), chunks_take _ _ _ _ (by omega)]
+  · simp only [branchKeys, hn, hk, List.drop_take]
+    rw [cutAt_take _ _ _ _ b1 (by unfold branchUsed at hm b2; omega)]
+
+/-- a branch decodes from the covered prefix `page[0 .. used]` alone, to the same result -/
+theorem decodeBranch_take {kw : Option Nat} {page : Bytes} {br : BranchPage}
+    (h : decodeBranch kw page = some br) : decodeBranch kw (page.take br.used) = some br := by
+  obtain ⟨hok, rfl⟩ := (decodeBranch_some_iff _ _ _).1 h
+  obtain ⟨a, b, c, d⟩ := branch_take hok (branchUsed kw page) (Nat.le_refl _) hok.used
+  exact (decodeBranch_some_iff _ _ _).2 ⟨a, by simp only [b, c, d]⟩
+
+theorem decodeBranch_used_le {kw : Option Nat} {page : Bytes} {br : BranchPage}
+    (h : decodeBranch kw page = some br) : 8 ≤ br.used ∧ br.used ≤ page.length := by
+  obtain ⟨hok, rfl⟩ := (decodeBranch_some_iff _ _ _).1 h
+  have b2 : branchKss kw (u16At page 2) ≤ branchUsed kw page := monotoneFrom_getLastD _ _ hok.mono
+  have h4 := branchKss_ge kw (u16At page 2)
+  exact ⟨by simp only; omega, hok.used⟩
+
+
+open Redb.Key Redb.Spec Redb.BTree
+
+/-! ## 6. binding (C12): equal checksums ⇒ equal covered bytes ⇒ equal trees -/
+
+/-- the standard idealisation of the hash: no two byte strings share a checksum. Always an explicit
+hypothesis, never an axiom. -/
+abbrev HashInjective : Prop := Function.Injective (fun (b : ByteArray) => Redb.Xxh3.checksum b)
+
+/-- the bytes of page `pn` covered by its checksum: `page[0 .. used]`, where `used` is
+`value_end(last)` of a leaf and `key_end(last)` of a branch -/
+def coveredPrefix (img : ByteArray) (lay : Layout) (kw vw : Option Nat) (pn : PageNumber) :
+    Option Bytes :=
+  match getPage img lay pn with
+  | none => none
+  | some page =>
+    if byteAt page 0 = 1 then (decodeLeaf kw vw page).map (fun lf => page.take lf.used)
+    else if byteAt page 0 = 2 then (decodeBranch kw page).map (fun br => page.take br.used)
+    else none
+
+theorem checksum_binding (hinj : HashInjective) {page page' : Bytes} {u u' : Nat}
+    (hu : u ≤ page.length) (hu' : u' ≤ page'.length)
+    (h : pageChecksum page u = pageChecksum page' u') : u = u' ∧ page.take u = page'.take u' := by
+  have h1 : (page.take u).toByteArray = (page'.take u').toByteArray := hinj h
+  have h2 : page.take u = page'.take u' := List.toByteArray_inj.1 h1
+  have h3 := congrArg List.length h2
+  simp only [List.length_take] at h3
+  exact ⟨by omega, h2⟩
+
+/-- the node-level consequence: two successful decodings of a page under the same stored checksum
+read the same covered bytes and produce the same node -/
+theorem node_binding (hinj : HashInjective) {kw vw : Option Nat} {page page' : Bytes} :
+    (∀ lf lf', decodeLeaf kw vw page = some lf → decodeLeaf kw vw page' = some lf' →
+      pageChecksum page lf.used = pageChecksum page' lf'.used →
+      lf = lf' ∧ page.take lf.used = page'.take lf'.used) ∧
+    (∀ br br', decodeBranch kw page = some br → decodeBranch kw page' = some br' →
+      pageChecksum page br.used = pageChecksum page' br'.used →
+      br = br' ∧ page.take br.used = page'.take br'.used) ∧
+    (∀ lf br', byteAt page 0 = 1 → byteAt page' 0 = 2 → decodeLeaf kw vw page = some lf →
+      decodeBranch kw page' = some br' →
+      pageChecksum page lf.used ≠ pageChecksum page' br'.used) := by
+  refine ⟨?_, ?_, ?_⟩
+  · intro lf lf' h h' hck
+    obtain ⟨hu, hp⟩ := checksum_binding hinj (decodeLeaf_used_le h).2 (decodeLeaf_used_le h').2 hck
+    have e := decodeLeaf_take h
+    have e' := decodeLeaf_take h'
+    rw [hp, e'] at e
+    exact ⟨(Option.some.inj e).symm, hp⟩
+  · intro br br' h h' hck
+    obtain ⟨hu, hp⟩ := checksum_binding hinj (decodeBranch_used_le h).2 (decodeBranch_used_le h').2 hck
+    have e := decodeBranch_take h
+    have e' := decodeBranch_take h'
+    rw [hp, e'] at e
+    exact ⟨(Option.some.inj e).symm, hp⟩
+  · intro lf br' hb hb' h h' hck
+    obtain ⟨hu, hp⟩ := checksum_binding hinj (decodeLeaf_used_le h).2 (decodeBranch_used_le h').2 hck
+    have h4 := (decodeLeaf_used_le h).1
+    have h8 := (decodeBranch_used_le h').1
+    have e1 := byteAt_take page lf.used 0 (by omega)
+    have e2 := byteAt_take page' br'.used 0 (by omega)
+    rw [hp, e2, hb'] at e1
+    omega
+
+/-- C12 for one page: if page `pn` decodes in two images (layouts may differ) under the SAME stored
+checksum `ck`, the covered prefixes of the page are the same bytes in both images. -/
+theorem page_binding (hinj : HashInjective) {img img' : ByteArray} {lay lay' : Layout}
+    {kw vw : Option Nat} {fuel fuel' : Nat} {pn : PageNumber} {ck : Bytes}
+    {seen seen' pages pages' : List PageNumber} {t t' : PTree}
+    (h : decodeTree img lay kw vw fuel pn ck seen = .ok (t, pages))
+    (h' : decodeTree img' lay' kw vw fuel' pn ck seen' = .ok (t', pages')) :
+    ∃ bytes, coveredPrefix img lay kw vw pn = some bytes ∧
+      coveredPrefix img' lay' kw vw pn = some bytes ∧ ck = Redb.Xxh3.checksum bytes.toByteArray := by
+  obtain ⟨_, _, _, page, hpage, hc⟩ := decodeTree_inv h
+  obtain ⟨_, _, _, page', hpage', hc'⟩ := decodeTree_inv h'
+  obtain ⟨n1, n2, n3⟩ := node_binding hinj (kw := kw) (vw := vw) (page := page) (page' := page')
+  obtain ⟨m1, m2, m3⟩ := node_binding hinj (kw := kw) (vw := vw) (page := page') (page' := page)
+  rcases hc with ⟨hb, lf, hlf, hck, _, _⟩ | ⟨hb, br, hbr, hck, _⟩ <;>
+  rcases hc' with ⟨hb', lf', hlf', hck', _, _⟩ | ⟨hb', br', hbr', hck', _⟩
+  · obtain ⟨e1, e2⟩ := n1 lf lf' hlf hlf' (hck.trans hck'.symm)
+    refine ⟨page.take lf.used, ?_, ?_, hck.symm⟩
+    · simp [coveredPrefix, hpage, hb, hlf]
+    · simp [coveredPrefix, hpage', hb', hlf', e2]
+  · exact absurd (hck.trans hck'.symm) (n3 lf br' hb hb' hlf hbr')
+  · exact absurd (hck'.trans hck.symm) (m3 lf' br hb' hb hlf' hbr)
+  · obtain ⟨e1, e2⟩ := n2 br br' hbr hbr' (hck.trans hck'.symm)
+    refine ⟨page.take br.used, ?_, ?_, hck.symm⟩
+    · simp [coveredPrefix, hpage, hb, hbr]
+    · simp [coveredPrefix, hpage', hb', hbr', e2]
+
+theorem decodeList_binding {dec dec' : Dec}
+    (ih : ∀ p ck seen seen' t t' pages pages', dec p ck seen = .ok (t, pages) →
+      dec' p ck seen' = .ok (t', pages') → t = t')
+    {cs : List (PageNumber × Bytes)} {s s1 : List PageNumber} {ts : List PTree}
+    (h : DecodeList dec cs s ts s1) :
+    ∀ {s' s1' : List PageNumber} {ts' : List PTree}, DecodeList dec' cs s' ts' s1' → ts = ts' := by
+  induction h with
+  | nil => intro s' s1' ts' h'; cases h'; rfl
+  | cons hd _ iht =>
+    intro s' s1' ts' h'
+    cases h' with
+    | cons hd' hl' => rw [ih _ _ _ _ _ _ _ _ hd hd', iht hl']
+
+/-- C12 for trees: same root page, same root checksum, both decode ⇒ the same tree -/
+theorem tree_binding (hinj : HashInjective) (img img' : ByteArray) (lay lay' : Layout)
+    (kw vw : Option Nat) (fuel : Nat) :
+    ∀ (fuel' : Nat) (p : PageNumber) (ck : Bytes) (seen seen' : List PageNumber) (t t' : PTree)
+      (pages pages' : List PageNumber),
+      decodeTree img lay kw vw fuel p ck seen = .ok (t, pages) →
+      decodeTree img' lay' kw vw fuel' p ck seen' = .ok (t', pages') → t = t' := by
+  induction fuel with
+  | zero => intro fuel' p ck seen seen' t t' pages pages' h; exact absurd h (fail_ne_ok _ _ _)
+  | succ fuel ih =>
+    intro fuel' p ck seen seen' t t' pages pages' h h'
+    obtain ⟨f1, hf1, _, page, hpage, hc⟩ := decodeTree_inv h
+    obtain ⟨f2, hf2, _, page', hpage', hc'⟩ := decodeTree_inv h'
+    cases hf1
+    obtain ⟨n1, n2, n3⟩ := node_binding hinj (kw := kw) (vw := vw) (page := page) (page' := page')
+    obtain ⟨m1, m2, m3⟩ := node_binding hinj (kw := kw) (vw := vw) (page := page') (page' := page)
+    rcases hc with ⟨hb, lf, hlf, hck, rfl, _⟩ | ⟨hb, br, hbr, hck, ts, rfl, hl⟩ <;>
+    rcases hc' with ⟨hb', lf', hlf', hck', rfl, _⟩ | ⟨hb', br', hbr', hck', ts', rfl, hl'⟩
+    · obtain ⟨e1, _⟩ := n1 lf lf' hlf hlf' (hck.trans hck'.symm)
+      rw [e1]
+    · exact absurd (hck.trans hck'.symm) (n3 lf br' hb hb' hlf hbr')
+    · exact absurd (hck'.trans hck.symm) (m3 lf' br hb' hb hlf' hbr)
+    · obtain ⟨e1, _⟩ := n2 br br' hbr hbr' (hck.trans hck'.symm)
+      subst e1
+      rw [decodeList_binding (ih f2) hl hl']
+
+
+open Redb.Key Redb.Spec Redb.BTree
+
+/-! ## the list of pages seen only grows, by fresh pages -/
+
+/-- `pages` extends `seen` by pages that are new and pairwise different -/
+def Extends (seen pages : List PageNumber) : Prop := ∃ new, FreshPages seen new pages
+
+theorem Extends.refl (s : List PageNumber) : Extends s s := ⟨[], by simp [FreshPages]⟩
+
+theorem FreshPages.extends {s n p : List PageNumber} (h : FreshPages s n p) : Extends s p := ⟨n, h⟩
+
+theorem FreshPages.mem {s n p : List PageNumber} (h : FreshPages s n p) : ∀ x ∈ n, x ∈ p := by
+  intro x hx; rw [h.1]; simp [hx]
+
+theorem Extends.subset {a b : List PageNumber} (h : Extends a b) : ∀ x ∈ a, x ∈ b := by
+  obtain ⟨n, h1, _, _⟩ := h
+  intro x hx; rw [h1]; simp [hx]
+
+theorem Extends.trans {a b c : List PageNumber} (h1 : Extends a b) (h2 : Extends b c) :
+    Extends a c := by
+  obtain ⟨n1, a1, a2, a3⟩ := h1
+  obtain ⟨n2, b1, b2, b3⟩ := h2
+  refine ⟨n1 ++ n2, by simp [b1, a1], ?_, ?_⟩
+  · refine List.nodup_append.2 ⟨a2, b2, ?_⟩
+    intro x hx y hy hxy
+    subst hxy
+    exact b3 x hy (by rw [a1]; simp [hx])
+  · intro x hx
+    rcases List.mem_append.1 hx with hx | hx
+    · exact a3 x hx
+    · intro hs; exact b3 x hx (by rw [a1]; simp [hs])
+
+theorem Extends.nodup {s : List PageNumber} (h : Extends [] s) : s.Nodup := by
+  obtain ⟨n, h1, h2, _⟩ := h
+  rw [h1, List.append_nil, List.Nodup, List.pairwise_reverse]
+  exact h2.imp (fun h => Ne.symm h)
+
+/-- a successful fold in `Except` whose steps are related by a preorder `R`: start and result are
+related, and every element was processed successfully from some intermediate state -/
+theorem foldlM_ok {α β : Type} (R : β → β → Prop) (hrefl : ∀ b, R b b)
+    (htrans : ∀ a b c, R a b → R b c → R a c) (f : β → α → Except String β)
+    (hstep : ∀ b a b', f b a = .ok b' → R b b') (l : List α) :
+    ∀ (b r : β), l.foldlM f b = .ok r →
+      R b r ∧ ∀ a ∈ l, ∃ s s', R b s ∧ f s a = .ok s' ∧ R s' r := by
+  induction l with
+  | nil =>
+    intro b r h
+    simp only [List.foldlM_nil, pure, Except.pure, Except.ok.injEq] at h
+    subst h
+    exact ⟨hrefl _, by simp⟩
+  | cons a l ih =>
+    intro b r h
+    simp only [List.foldlM_cons, bind, Except.bind] at h
+    split at h
+    · cases h
+    rename_i b' hb'
+    obtain ⟨i1, i2⟩ := ih _ _ h
+    have hR := hstep _ _ _ hb'
+    refine ⟨htrans _ _ _ hR i1, ?_⟩
+    intro x hx
+    rcases List.mem_cons.1 hx with rfl | hx
+    · exact ⟨b, b', hrefl _, hb', i1⟩
+    · obtain ⟨s, s', j1, j2, j3⟩ := i2 x hx
+      exact ⟨s, s', htrans _ _ _ hR j1, j2, j3⟩
+
+/-! ## 3 + 4. checked trees: well-formed, checksummed, stored length = entries present -/
+
+/-- conjuncts 1, 3, 4 of C10 for the tree `pt` decoded from the `BtreeHeader` `hd` -/
+structure TreeOk (img : ByteArray) (lay : Layout) (kt : KT) (kw vw : Option Nat) (hd : BtreeHeader)
+    (pt : PTree) : Prop where
+  /-- every stored checksum, from the header down to each leaf, matches the bytes it covers -/
+  checksums : ChecksumsMatch img lay kw vw hd.root hd.checksum pt
+  /-- keys increasing, routing keys bound the subtrees, leaves at one depth -/
+  wf : wf kt none none (depthLeft 129 pt.erase) pt.erase = true
+  /-- `BtreeHeader.length` = number of pairs present -/
+  length : (flatten pt.erase).length = hd.length
+
+/-- what `decodeCheckedTree` establishes for an optional root -/
+def RootChecked (img : ByteArray) (lay : Layout) (kt : KT) (kw vw : Option Nat)
+    (root : Option BtreeHeader) (seen : List PageNumber) (r : Option PTree)
+    (pages : List PageNumber) : Prop :=
+  match root with
+  | none => r = none ∧ pages = seen
+  | some hd => ∃ pt, r = some pt ∧ TreeOk img lay kt kw vw hd pt ∧ FreshPages seen pt.pages pages
+
+/-- the pairs of an optional tree -/
+def entriesOf : Option PTree → List Entry
+  | some pt => flatten pt.erase
+  | none => []
+
+theorem decodeCheckedTree_sound {img : ByteArray} {lay : Layout} {kt : KT} {kw vw : Option Nat}
+    {what : String} {root : Option BtreeHeader} {seen : List PageNumber}
+    {r : Option PTree × List PageNumber}
+    (h : decodeCheckedTree img lay kt kw vw what root seen = .ok r) :
+    RootChecked img lay kt kw vw root seen r.1 r.2 := by
+  unfold decodeCheckedTree at h
+  split at h
+  · cases h; exact ⟨rfl, rfl⟩
+  rename_i hd
+  split at h
+  · cases h
+  rename_i x hx
+  simp only [bind, Except.bind] at h
+  split at h
+  · cases h
+  rename_i u hu
+  split at h
+  · exact absurd h (fail_ne_ok _ _ _)
+  rename_i hlen
+  simp only [pure, Except.pure, Except.ok.injEq] at h
+  subst h
+  obtain ⟨t, pg⟩ := x
+  refine ⟨t, rfl, ⟨decodeTree_checksums _ _ _ _ _ _ _ _ _ _ hx, checkTree_ok hu, by simpa using hlen⟩,
+    decodeTree_pages _ _ _ _ _ _ _ _ _ _ hx⟩
+
+theorem RootChecked.extends {img : ByteArray} {lay : Layout} {kt : KT} {kw vw : Option Nat}
+    {root : Option BtreeHeader} {seen : List PageNumber} {r : Option PTree} {pages : List PageNumber}
+    (h : RootChecked img lay kt kw vw root seen r pages) : Extends seen pages := by
+  cases root with
+  | none => obtain ⟨_, rfl⟩ := h; exact Extends.refl _
+  | some hd => obtain ⟨pt, _, _, hf⟩ := h; exact hf.extends
+
+/-- normal table: the tree over (K, V) is checked and `table_length` = number of pairs -/
+def NormalTableOk (img : ByteArray) (lay : Layout) (kt : KT) (d : TableDef) (seen : List PageNumber)
+    (es : List Entry) (pages : List PageNumber) : Prop :=
+  ∃ r, RootChecked img lay kt d.fixedKey d.fixedValue d.root seen r pages ∧ es = entriesOf r ∧
+    d.tableLength = es.length
+
+theorem checkNormalTable_sound {img : ByteArray} {lay : Layout} {name : String} {kt : KT}
+    {d : TableDef} {seen : List PageNumber} {r : List Entry × List PageNumber}
+    (h : checkNormalTable img lay name kt d seen = .ok r) :
+    NormalTableOk img lay kt d seen r.1 r.2 := by
+  unfold checkNormalTable at h
+  simp only [bind, Except.bind] at h
+  split at h
+  · cases h
+  rename_i x hx
+  have hr := decodeCheckedTree_sound hx
+  obtain ⟨r1, pg⟩ := x
+  cases r1 with
+  | none =>
+    simp only at h
+    split at h
+    · exact absurd h (fail_ne_ok _ _ _)
+    rename_i hlen
+    simp only [pure, Except.pure, Except.ok.injEq] at h
+    subst h
+    exact ⟨none, hr, rfl, by simpa using hlen⟩
+  | some pt =>
+    simp only at h
+    split at h
+    · exact absurd h (fail_ne_ok _ _ _)
+    rename_i hlen
+    simp only [pure, Except.pure, Except.ok.injEq] at h
+    subst h
+    exact ⟨some pt, hr, rfl, by simpa using hlen⟩
+
+
+open Redb.Key Redb.Spec Redb.BTree
+
+/-! ## multimap tables -/
+
+/-- keys valid and strictly increasing, declaratively -/
+def StrictIncr (t : KT) (ks : List Bytes) : Prop :=
+  (∀ k ∈ ks, valid t k = true) ∧ ks.Pairwise (fun a b => cmp t a b = .lt)
+
+theorem strictlyIncreasing_sound (t : KT) : ∀ ks : List Bytes,
+    strictlyIncreasing t ks = true → StrictIncr t ks := by
+  intro ks
+  induction ks with
+  | nil => intro _; exact ⟨by simp, List.Pairwise.nil⟩
+  | cons a l ih =>
+    cases l with
+    | nil => intro h; simp only [strictlyIncreasing] at h; exact ⟨by simpa using h, by simp⟩
+    | cons b rest =>
+      intro h
+      simp only [strictlyIncreasing, Bool.and_eq_true, beq_iff_eq] at h
+      obtain ⟨⟨ha, hab⟩, hr⟩ := h
+      obtain ⟨i1, i2⟩ := ih hr
+      have hb : valid t b = true := i1 b (by simp)
+      obtain ⟨i3, _⟩ := List.pairwise_cons.1 i2
+      refine ⟨?_, List.pairwise_cons.2 ⟨?_, i2⟩⟩
+      · intro k hk
+        rcases List.mem_cons.1 hk with rfl | hk
+        · exact ha
+        · exact i1 k hk
+      · intro x hx
+        rcases List.mem_cons.1 hx with rfl | hx
+        · exact hab
+        · exact (cmp_laws t).trans_lt a b x ha hb (i1 x (by simp [hx])) (by simp [hab]) (i3 x hx)
+
+/-- what `decodeCollection` establishes for the value `v` of a multimap key: an inline sorted
+value set, or a checked subtree over (V, ()) -/
+inductive CollectionOk (img : ByteArray) (lay : Layout) (vt : KT) (v : Bytes)
+    (seen : List PageNumber) (vs : List Bytes) (pages : List PageNumber) : Prop
+  | inline (lf : LeafPage) : byteAt v 0 = 1 →
+      decodeLeaf (fixedWidth vt) (some 0) (v.drop 1) = some lf → vs = lf.entries.map (·.1) →
+      StrictIncr vt vs → pages = seen → CollectionOk img lay vt v seen vs pages
+  | subtree (r : Option PTree) : byteAt v 0 = 3 → 33 ≤ v.length →
+      RootChecked img lay vt (fixedWidth vt) (some 0) (some (decodeBtreeHeader (slice v 1 33)))
+        seen r pages →
+      vs = (entriesOf r).map (·.1) → CollectionOk img lay vt v seen vs pages
+
+theorem decodeCollection_sound {img : ByteArray} {lay : Layout} {name : String} {vt : KT}
+    {p : PageNumber} {key v : Bytes} {seen : List PageNumber} {r : List Bytes × List PageNumber}
+    (h : decodeCollection img lay name vt p key v seen = .ok r) :
+    CollectionOk img lay vt v seen r.1 r.2 := by
+  unfold decodeCollection at h
+  split at h
+  · rename_i hc
+    simp only [Bool.and_eq_true, beq_iff_eq, decide_eq_true_eq] at hc
+    split at h
+    · exact absurd h (fail_ne_ok _ _ _)
+    rename_i lf hlf
+    split at h
+    · exact absurd h (fail_ne_ok _ _ _)
+    rename_i hs
+    simp only [Except.ok.injEq] at h
+    subst h
+    exact .inline lf hc.1 hlf rfl (strictlyIncreasing_sound _ _ (by simpa using hs)) rfl
+  · split at h
+    · rename_i hc
+      simp only [Bool.and_eq_true, beq_iff_eq, decide_eq_true_eq] at hc
+      simp only [bind, Except.bind] at h
+      split at h
+      · cases h
+      rename_i x hx
+      have hr := decodeCheckedTree_sound hx
+      obtain ⟨r1, pg⟩ := x
+      cases r1 with
+      | none =>
+        simp only [pure, Except.pure, Except.ok.injEq] at h
+        subst h
+        exact .subtree none hc.1 hc.2 hr rfl
+      | some pt =>
+        simp only [pure, Except.pure, Except.ok.injEq] at h
+        subst h
+        exact .subtree (some pt) hc.1 hc.2 hr rfl
+    · exact absurd h (fail_ne_ok _ _ _)
+
+theorem CollectionOk.extends {img : ByteArray} {lay : Layout} {vt : KT} {v : Bytes}
+    {seen : List PageNumber} {vs : List Bytes} {pages : List PageNumber}
+    (h : CollectionOk img lay vt v seen vs pages) : Extends seen pages := by
+  cases h with
+  | inline lf _ _ _ _ hp => subst hp; exact Extends.refl _
+  | subtree r _ _ hr _ => exact hr.extends
+
+/-- the value set of every key is strictly increasing in the value order (no duplicate pairs) -/
+theorem CollectionOk.strictIncr {img : ByteArray} {lay : Layout} {vt : KT} {v : Bytes}
+    {seen : List PageNumber} {vs : List Bytes} {pages : List PageNumber}
+    (h : CollectionOk img lay vt v seen vs pages) : StrictIncr vt vs := by
+  cases h with
+  | inline lf _ _ _ hs _ => exact hs
+  | subtree r _ _ hr hv =>
+    obtain ⟨pt, rfl, hok, _⟩ := hr
+    obtain ⟨g1, g2, _, _⟩ := flatten_good (cmp_laws vt) _ none none _ hok.wf
+    subst hv
+    refine ⟨?_, ?_⟩
+    · intro k hk
+      obtain ⟨e, he, rfl⟩ := List.mem_map.1 hk
+      exact g2 e he
+    · simpa [entriesOf, PSorted, List.pairwise_map] using g1
+
+/-- the collections of the entries of a multimap tree, decoded one after the other, threading the
+list of pages seen -/
+inductive CollectList (img : ByteArray) (lay : Layout) (vt : KT) :
+    List Entry → List PageNumber → List (Bytes × List Bytes) → List PageNumber → Prop
+  | nil (s : List PageNumber) : CollectList img lay vt [] s [] s
+  | cons {e : Entry} {es : List Entry} {s s' s'' : List PageNumber} {vs : List Bytes}
+      {cs : List (Bytes × List Bytes)} :
+      CollectionOk img lay vt e.2 s vs s' → vs ≠ [] → CollectList img lay vt es s' cs s'' →
+      CollectList img lay vt (e :: es) s ((e.1, vs) :: cs) s''
+
+theorem CollectList.append {img : ByteArray} {lay : Layout} {vt : KT} {a b : List Entry}
+    {s s' s'' : List PageNumber} {c1 c2 : List (Bytes × List Bytes)}
+    (h1 : CollectList img lay vt a s c1 s') (h2 : CollectList img lay vt b s' c2 s'') :
+    CollectList img lay vt (a ++ b) s (c1 ++ c2) s'' := by
+  induction h1 with
+  | nil => exact h2
+  | cons hc hne _ ih => exact .cons hc hne (ih h2)
+
+theorem CollectList.extends {img : ByteArray} {lay : Layout} {vt : KT} {a : List Entry}
+    {s s' : List PageNumber} {cs : List (Bytes × List Bytes)}
+    (h : CollectList img lay vt a s cs s') : Extends s s' := by
+  induction h with
+  | nil => exact Extends.refl _
+  | cons hc _ _ ih => exact hc.extends.trans ih
+
+theorem CollectList.keys {img : ByteArray} {lay : Layout} {vt : KT} {a : List Entry}
+    {s s' : List PageNumber} {cs : List (Bytes × List Bytes)}
+    (h : CollectList img lay vt a s cs s') : cs.map (·.1) = a.map (·.1) := by
+  induction h with
+  | nil => rfl
+  | cons _ _ _ ih => simp [ih]
+
+theorem CollectList.values {img : ByteArray} {lay : Layout} {vt : KT} {a : List Entry}
+    {s s' : List PageNumber} {cs : List (Bytes × List Bytes)}
+    (h : CollectList img lay vt a s cs s') : ∀ c ∈ cs, c.2 ≠ [] ∧ StrictIncr vt c.2 := by
+  induction h with
+  | nil => simp
+  | cons hc hne _ ih =>
+    intro c hc'
+    rcases List.mem_cons.1 hc' with rfl | hc'
+    · exact ⟨hne, hc.strictIncr⟩
+    · exact ih c hc'
+
+/-- the inner fold of `checkMultimapTable`: the entries of one leaf -/
+theorem foldlM_collect_leaf {img : ByteArray} {lay : Layout} {name : String} {vt : KT}
+    (p : PageNumber) (es : List Entry) :
+    ∀ (acc res : List (Bytes × List Bytes) × List PageNumber),
+      es.foldlM (fun (acc : List (Bytes × List Bytes) × List PageNumber) e => do
+        let c ← decodeCollection img lay name vt p e.1 e.2 acc.2
+        if c.1.isEmpty then fail "decode" s!"page {p}: empty value set for key {hex e.1} [table {name}]"
+        else pure ((e.1, c.1) :: acc.1, c.2)) acc = .ok res →
+      ∃ cs, res.1 = cs.reverse ++ acc.1 ∧ CollectList img lay vt es acc.2 cs res.2 := by
+  induction es with
+  | nil =>
+    intro acc res h
+    simp only [List.foldlM_nil, pure, Except.pure, Except.ok.injEq] at h
+    subst h
+    exact ⟨[], by simp, .nil _⟩
+  | cons e es ih =>
+    intro acc res h
+    simp only [List.foldlM_cons, bind, Except.bind] at h
+    split at h
+    · cases h
+    rename_i x hx
+    split at hx
+    · cases hx
+    rename_i c hc
+    split at hx
+    · exact absurd hx (fail_ne_ok _ _ _)
+    rename_i hne
+    simp only [pure, Except.pure, Except.ok.injEq] at hx
+    subst hx
+    obtain ⟨cs, h1, h2⟩ := ih _ _ h
+    refine ⟨(e.1, c.1) :: cs, by simp [h1], .cons (decodeCollection_sound hc) ?_ h2⟩
+    intro h0; simp [h0] at hne
+
+/-- the outer fold of `checkMultimapTable`: all leaves -/
+theorem foldlM_collect_leaves {img : ByteArray} {lay : Layout} {name : String} {vt : KT}
+    (leaves : List (PageNumber × List Entry)) :
+    ∀ (acc res : List (Bytes × List Bytes) × List PageNumber),
+      leaves.foldlM (fun (acc : List (Bytes × List Bytes) × List PageNumber) lf =>
+        lf.2.foldlM (fun (acc : List (Bytes × List Bytes) × List PageNumber) e => do
+          let c ← decodeCollection img lay name vt lf.1 e.1 e.2 acc.2
+          if c.1.isEmpty then fail "decode" s!"page {lf.1}: empty value set for key {hex e.1} [table {name}]"
+          else pure ((e.1, c.1) :: acc.1, c.2)) acc) acc = .ok res →
+      ∃ cs, res.1 = cs.reverse ++ acc.1 ∧
+        CollectList img lay vt (leaves.flatMap (·.2)) acc.2 cs res.2 := by
+  induction leaves with
+  | nil =>
+    intro acc res h
+    simp only [List.foldlM_nil, pure, Except.pure, Except.ok.injEq] at h
+    subst h
+    exact ⟨[], by simp, .nil _⟩
+  | cons lf leaves ih =>
+    intro acc res h
+    simp only [List.foldlM_cons, bind, Except.bind] at h
+    split at h
+    · cases h
+    rename_i x hx
+    obtain ⟨c1, a1, a2⟩ := foldlM_collect_leaf lf.1 lf.2 _ _ hx
+    obtain ⟨c2, b1, b2⟩ := ih _ _ h
+    refine ⟨c1 ++ c2, by simp [b1, a1], ?_⟩
+    simp only [List.flatMap_cons]
+    exact a2.append b2
+
+mutual
+theorem leaves_flatten : ∀ pt : PTree, pt.leaves.flatMap (·.2) = flatten pt.erase
+  | .leaf p es => by simp [PTree.leaves, PTree.erase, flatten]
+  | .branch p cs ks => by
+    simp only [PTree.leaves, PTree.erase, flatten]
+    exact leavesList_flatten cs
+theorem leavesList_flatten : ∀ cs : List PTree,
+    (leavesList cs).flatMap (·.2) = flattenList (eraseList cs)
+  | [] => by simp [leavesList, eraseList, flattenList]
+  | c :: cs => by
+    simp only [leavesList, eraseList, flattenList, List.flatMap_append]
+    rw [leaves_flatten c, leavesList_flatten cs]
+end
+
+/-- number of (key, value) pairs of a multimap -/
+def pairCount (es : List (Bytes × List Bytes)) : Nat := (es.map (·.2.length)).sum
+
+theorem foldl_pairCount (es : List (Bytes × List Bytes)) :
+    ∀ a, es.foldl (fun a e => a + e.2.length) a = a + pairCount es := by
+  induction es with
+  | nil => intro a; simp [pairCount]
+  | cons e es ih => intro a; simp only [List.foldl_cons, ih, pairCount, List.map_cons, List.sum_cons]; omega
+
+/-- multimap table: the tree over (K, collection) is checked, every collection is a non-empty
+strictly increasing value set (inline or a checked subtree), and `table_length` = number of
+(key, value) pairs -/
+def MultimapTableOk (img : ByteArray) (lay : Layout) (kt vt : KT) (d : TableDef)
+    (seen : List PageNumber) (es : List (Bytes × List Bytes)) (pages : List PageNumber) : Prop :=
+  ∃ r p1, RootChecked img lay kt d.fixedKey none d.root seen r p1 ∧
+    CollectList img lay vt (entriesOf r) p1 es pages ∧ d.tableLength = pairCount es
+
+theorem checkMultimapTable_sound {img : ByteArray} {lay : Layout} {name : String} {kt vt : KT}
+    {d : TableDef} {seen : List PageNumber} {r : List (Bytes × List Bytes) × List PageNumber}
+    (h : checkMultimapTable img lay name kt vt d seen = .ok r) :
+    MultimapTableOk img lay kt vt d seen r.1 r.2 := by
+  unfold checkMultimapTable at h
+  simp only [bind, Except.bind] at h
+  split at h
+  · cases h
+  rename_i x hx
+  have hr := decodeCheckedTree_sound hx
+  split at h
+  · cases h
+  rename_i res hres
+  obtain ⟨cs, h1, h2⟩ := foldlM_collect_leaves _ _ _ hres
+  split at h
+  · exact absurd h (fail_ne_ok _ _ _)
+  rename_i hlen
+  simp only [pure, Except.pure, Except.ok.injEq] at h
+  subst h
+  simp only [List.append_nil] at h1
+  have h2' : CollectList img lay vt (entriesOf x.1) x.2 cs res.2 := by
+    obtain ⟨r1, pg⟩ := x
+    cases r1 with
+    | none => exact h2
+    | some pt =>
+      show CollectList img lay vt (flatten pt.erase) _ _ _
+      rw [← leaves_flatten pt]; exact h2
+  refine ⟨x.1, x.2, hr, ?_, ?_⟩
+  · simpa [h1] using h2'
+  · have := foldl_pairCount res.1.reverse 0
+    simp only [Nat.zero_add] at this
+    rw [← this]
+    simpa using hlen
+
+
+open Redb.Key Redb.Spec Redb.BTree
+
+/-! ## master trees, user and system tables -/
+
+theorem NormalTableOk.extends {img : ByteArray} {lay : Layout} {kt : KT} {d : TableDef}
+    {seen : List PageNumber} {es : List Entry} {pages : List PageNumber}
+    (h : NormalTableOk img lay kt d seen es pages) : Extends seen pages := by
+  obtain ⟨r, hr, _, _⟩ := h; exact hr.extends
+
+theorem MultimapTableOk.extends {img : ByteArray} {lay : Layout} {kt vt : KT} {d : TableDef}
+    {seen : List PageNumber} {es : List (Bytes × List Bytes)} {pages : List PageNumber}
+    (h : MultimapTableOk img lay kt vt d seen es pages) : Extends seen pages := by
+  obtain ⟨r, p1, hr, hc, _⟩ := h; exact hr.extends.trans hc.extends
+
+theorem mapM_ok {α β : Type} (f : α → Except String β) (l : List α) :
+    ∀ r, l.mapM f = .ok r → r.map some = l.map (fun a => (f a).toOption) := by
+  induction l with
+  | nil => intro r h; simp only [List.mapM_nil, pure, Except.pure, Except.ok.injEq] at h; subst h; rfl
+  | cons a l ih =>
+    intro r h
+    simp only [List.mapM_cons, bind, Except.bind] at h
+    split at h
+    · cases h
+    rename_i b hb
+    split at h
+    · cases h
+    rename_i bs hbs
+    simp only [pure, Except.pure, Except.ok.injEq] at h
+    subst h
+    simp [ih _ hbs, hb, Except.toOption]
+
+/-- a master tree: checked B-tree over (`&str` name, `InternalTableDefinition`) whose values all
+decode; `defs` are (name bytes, definition) in key order -/
+def MasterOk (img : ByteArray) (lay : Layout) (root : Option BtreeHeader) (seen : List PageNumber)
+    (defs : List (Bytes × TableDef)) (pages : List PageNumber) : Prop :=
+  ∃ r, RootChecked img lay .str none none root seen r pages ∧
+    defs.map some = (entriesOf r).map (fun e => (decodeTableDef e.2).map (fun d => (e.1, d)))
+
+theorem decodeMaster_sound {img : ByteArray} {lay : Layout} {what : String}
+    {root : Option BtreeHeader} {seen : List PageNumber}
+    {r : List (Bytes × TableDef) × List PageNumber}
+    (h : decodeMaster img lay what root seen = .ok r) : MasterOk img lay root seen r.1 r.2 := by
+  unfold decodeMaster at h
+  simp only [bind, Except.bind] at h
+  split at h
+  · cases h
+  rename_i x hx
+  have hr := decodeCheckedTree_sound hx
+  split at h
+  · cases h
+  rename_i defs hdefs
+  simp only [pure, Except.pure, Except.ok.injEq] at h
+  subst h
+  refine ⟨x.1, hr, ?_⟩
+  have hm : defs.map some = (entriesOf x.1).map _ := mapM_ok _ _ _ hdefs
+  rw [hm]
+  apply List.map_congr_left
+  intro e _
+  cases hd : decodeTableDef e.2 <;> simp [Except.toOption, fail, pure, Except.pure]
+
+theorem MasterOk.extends {img : ByteArray} {lay : Layout} {root : Option BtreeHeader}
+    {seen : List PageNumber} {defs : List (Bytes × TableDef)} {pages : List PageNumber}
+    (h : MasterOk img lay root seen defs pages) : Extends seen pages := by
+  obtain ⟨r, hr, _⟩ := h; exact hr.extends
+
+/-- a system table: one of the known names, a normal table with the key type of that name -/
+def SystemTableOk (img : ByteArray) (lay : Layout) (name : String) (d : TableDef)
+    (seen pages : List PageNumber) : Prop :=
+  ∃ kt isPageList es, systemTableType name = some (kt, isPageList) ∧ d.kind = 3 ∧
+    d.fixedKey = fixedWidth kt ∧ NormalTableOk img lay kt d seen es pages ∧
+    (isPageList = true → ∀ e ∈ es, pageListOk e.2 = true)
+
+theorem checkSystemTable_sound {img : ByteArray} {lay : Layout} {name : String} {d : TableDef}
+    {seen pages : List PageNumber} (h : checkSystemTable img lay name d seen = .ok pages) :
+    SystemTableOk img lay name d seen pages := by
+  unfold checkSystemTable at h
+  split at h
+  · exact absurd h (fail_ne_ok _ _ _)
+  rename_i kt isPL hty
+  split at h
+  · exact absurd h (fail_ne_ok _ _ _)
+  rename_i hkind
+  split at h
+  · exact absurd h (fail_ne_ok _ _ _)
+  rename_i hfk
+  simp only [bind, Except.bind] at h
+  split at h
+  · cases h
+  rename_i x hx
+  split at h
+  · exact absurd h (fail_ne_ok _ _ _)
+  rename_i hpl
+  simp only [pure, Except.pure, Except.ok.injEq] at h
+  subst h
+  refine ⟨kt, isPL, x.1, hty, by simpa using hkind, by simpa using hfk, checkNormalTable_sound hx, ?_⟩
+  intro hi
+  simpa [hi] using hpl
+
+theorem SystemTableOk.extends {img : ByteArray} {lay : Layout} {name : String} {d : TableDef}
+    {seen pages : List PageNumber} (h : SystemTableOk img lay name d seen pages) :
+    Extends seen pages := by
+  obtain ⟨_, _, _, _, _, _, hn, _⟩ := h; exact hn.extends
+
+/-- a user table against its spec: stored type and widths match, the table is checked, and the
+decoded contents are the expected ones -/
+def UserTableOk (img : ByteArray) (lay : Layout) (spec : TableSpec) (d : TableDef)
+    (seen pages : List PageNumber) : Prop :=
+  (d.kind == 4) = spec.multimap ∧ d.fixedKey = fixedWidth spec.kt ∧ d.fixedValue = fixedWidth spec.vt ∧
+  d.keyAlign = 1 ∧ d.valueAlign = 1 ∧
+  ((spec.multimap = true ∧ ∃ es, MultimapTableOk img lay spec.kt spec.vt d seen es pages ∧
+      spec.contentsOk (.multimap es) = true) ∨
+   (spec.multimap = false ∧ ∃ es, NormalTableOk img lay spec.kt d seen es pages ∧
+      spec.contentsOk (.normal es) = true))
+
+theorem checkUserTable_sound {img : ByteArray} {lay : Layout} {spec : TableSpec} {d : TableDef}
+    {seen pages : List PageNumber} (h : checkUserTable img lay spec d seen = .ok pages) :
+    UserTableOk img lay spec d seen pages := by
+  unfold checkUserTable at h
+  split at h
+  · exact absurd h (fail_ne_ok _ _ _)
+  rename_i hkind
+  split at h
+  · exact absurd h (fail_ne_ok _ _ _)
+  rename_i hfix
+  split at h
+  · exact absurd h (fail_ne_ok _ _ _)
+  rename_i hal
+  simp only [Bool.or_eq_true, bne_iff_ne, ne_eq, not_or, Decidable.not_not] at hkind hfix hal
+  refine ⟨hkind, hfix.1, hfix.2, hal.1, hal.2, ?_⟩
+  split at h
+  · rename_i hmm
+    left
+    simp only [bind, Except.bind] at h
+    split at h
+    · cases h
+    rename_i x hx
+    split at h
+    · exact absurd h (fail_ne_ok _ _ _)
+    rename_i hco
+    simp only [pure, Except.pure, Except.ok.injEq] at h
+    subst h
+    exact ⟨hmm, x.1, checkMultimapTable_sound hx, by simpa using hco⟩
+  · rename_i hmm
+    right
+    simp only [bind, Except.bind] at h
+    split at h
+    · cases h
+    rename_i x hx
+    split at h
+    · exact absurd h (fail_ne_ok _ _ _)
+    rename_i hco
+    simp only [pure, Except.pure, Except.ok.injEq] at h
+    subst h
+    exact ⟨by simpa using hmm, x.1, checkNormalTable_sound hx, by simpa using hco⟩
+
+theorem UserTableOk.extends {img : ByteArray} {lay : Layout} {spec : TableSpec} {d : TableDef}
+    {seen pages : List PageNumber} (h : UserTableOk img lay spec d seen pages) :
+    Extends seen pages := by
+  obtain ⟨_, _, _, _, _, h | h⟩ := h
+  · obtain ⟨_, _, hm, _⟩ := h; exact hm.extends
+  · obtain ⟨_, _, hn, _⟩ := h; exact hn.extends
+
+
+open Redb.Key Redb.Spec Redb.BTree
+
+/-! ## 5. commit slot checksum and the whole image -/
+
+/-- the stored bytes 112.. of a commit slot are the XXH3-128 of its first 112 bytes -/
+def SlotChecksumValid (d : Bytes) : Prop :=
+  d.drop 112 = Redb.Xxh3.checksum (d.take 112).toByteArray
+
+theorem slotChecksumOk_iff (d : Bytes) : slotChecksumOk d = true ↔ SlotChecksumValid d := by
+  unfold slotChecksumOk SlotChecksumValid
+  rw [beq_iff_eq]
+  exact eq_comm
+
+/-- for a 128-byte slot the stored bytes are the `checksum` field of the decoded slot -/
+theorem decodeSlot_checksum {d : Bytes} {slot : Slot} (h : decodeSlot d = some slot) :
+    d.length = 128 ∧ slot.checksum = d.drop 112 := by
+  unfold decodeSlot at h
+  split at h
+  · cases h
+  rename_i hl
+  have hl : d.length = 128 := by simpa using hl
+  cases h
+  exact ⟨hl, by simp [slice, List.take_of_length_le (Nat.le_of_eq hl)]⟩
+
+theorem forM_ok {α : Type} (f : α → Except String PUnit) (l : List α)
+    (h : l.forM f = .ok ⟨⟩) : ∀ a ∈ l, f a = .ok ⟨⟩ := by
+  induction l with
+  | nil => simp
+  | cons a l ih =>
+    simp only [List.forM, bind, Except.bind] at h
+    split at h
+    · cases h
+    rename_i u hu
+    intro x hx
+    rcases List.mem_cons.1 hx with rfl | hx
+    · exact hu
+    · exact ih h x hx
+
+/-- Property C10 for one image, declaratively. `all` is the list of every page referenced from
+the primary commit slot. -/
+structure ImageOk (img : ByteArray) (pageSize : Nat) (specs : List TableSpec) : Prop where
+  ex : ∃ (h : Header) (slot : Slot) (um sm : List (Bytes × TableDef)) (p1 s1 p2 all : List PageNumber),
+    decodeHeader img = some h ∧ h.layout.pageSize = pageSize ∧ h.layout.fileLen = img.size ∧
+    -- the primary commit slot: checksum and version
+    SlotChecksumValid h.primary ∧ decodeSlot h.primary = some slot ∧ slot.version = 3 ∧
+    -- data master tree and every user table named in it
+    MasterOk img h.layout slot.userRoot [] um p1 ∧
+    (∀ e ∈ um, ∃ spec s s', spec ∈ specs ∧ spec.name.toUTF8.toList = e.1 ∧ Extends p1 s ∧
+      UserTableOk img h.layout spec e.2 s s' ∧ Extends s' s1) ∧
+    Extends p1 s1 ∧
+    -- a user table that is absent is expected to be empty
+    (∀ spec ∈ specs, (∃ e ∈ um, e.1 = spec.name.toUTF8.toList) ∨
+      spec.contentsOk (if spec.multimap then .multimap [] else .normal []) = true) ∧
+    -- system master tree and every system table named in it
+    MasterOk img h.layout slot.systemRoot s1 sm p2 ∧
+    (∀ e ∈ sm, ∃ s s', Extends p2 s ∧ SystemTableOk img h.layout (nameOf e.1) e.2 s s' ∧
+      Extends s' all) ∧
+    Extends p2 all ∧
+    -- no page referenced twice, no two referenced pages overlap
+    all.Nodup ∧ RangesDisjoint h.layout all
+
+theorem checkImage_sound {img : ByteArray} {pageSize : Nat} {specs : List TableSpec}
+    (h : checkImage img pageSize specs = .ok ()) : ImageOk img pageSize specs := by
+  unfold checkImage at h
+  split at h
+  · exact absurd h (fail_ne_ok _ _ _)
+  rename_i hd hhd
+  split at h
+  · exact absurd h (fail_ne_ok _ _ _)
+  rename_i hps
+  split at h
+  · exact absurd h (fail_ne_ok _ _ _)
+  split at h
+  · exact absurd h (fail_ne_ok _ _ _)
+  rename_i hlen
+  split at h
+  · exact absurd h (fail_ne_ok _ _ _)
+  rename_i hck
+  split at h
+  · exact absurd h (fail_ne_ok _ _ _)
+  rename_i slot hslot
+  split at h
+  · exact absurd h (fail_ne_ok _ _ _)
+  rename_i hver
+  simp only [bind, Except.bind] at h
+  split at h
+  · cases h
+  rename_i um hum
+  split at h
+  · cases h
+  rename_i s1 hs1
+  split at h
+  · cases h
+  rename_i u hu
+  split at h
+  · cases h
+  rename_i sm hsm
+  split at h
+  · cases h
+  rename_i all hall
+  split at h
+  · exact absurd h (fail_ne_ok _ _ _)
+  rename_i hdis
+  have hmu := decodeMaster_sound hum
+  have hms := decodeMaster_sound hsm
+  -- user tables
+  obtain ⟨e1, e2⟩ := foldlM_ok Extends Extends.refl (fun _ _ _ => Extends.trans) _ (by
+    intro b a b' hb
+    split at hb
+    · exact absurd hb (fail_ne_ok _ _ _)
+    · exact (checkUserTable_sound hb).extends) _ _ _ hs1
+  -- system tables
+  obtain ⟨f1, f2⟩ := foldlM_ok Extends Extends.refl (fun _ _ _ => Extends.trans) _ (by
+    intro b a b' hb
+    exact (checkSystemTable_sound hb).extends) _ _ _ hall
+  have hext : Extends [] all :=
+    (hmu.extends.trans e1).trans ((hms.extends.trans f1))
+  refine ⟨hd, slot, um.1, sm.1, um.2, s1, sm.2, all, hhd, by simpa using hps, by simpa using hlen,
+    (slotChecksumOk_iff _).1 (by simpa using hck), hslot, by simpa using hver, hmu, ?_, e1, ?_, hms,
+    ?_, f1, hext.nodup, pagesDisjoint_none _ _ hdis⟩
+  · intro e he
+    obtain ⟨s, s', a1, a2, a3⟩ := e2 e he
+    split at a2
+    · exact absurd a2 (fail_ne_ok _ _ _)
+    rename_i spec hspec
+    have hp := List.find?_some hspec
+    exact ⟨spec, s, s', List.mem_of_find?_eq_some hspec, by simpa using hp, a1,
+      checkUserTable_sound a2, a3⟩
+  · intro spec hspec
+    have := forM_ok _ _ hu spec hspec
+    by_cases hany : (um.1.any (fun e => e.1 == spec.name.toUTF8.toList)) = true
+    · left
+      obtain ⟨e, he, heq⟩ := List.any_eq_true.1 hany
+      exact ⟨e, he, by simpa using heq⟩
+    · right
+      rw [if_neg hany] at this
+      by_cases hco : spec.contentsOk (if spec.multimap then .multimap [] else .normal []) = true
+      · exact hco
+      · rw [if_neg hco] at this
+        exact absurd this (fail_ne_ok _ _ _)
+  · intro e he
+    obtain ⟨s, s', a1, a2, a3⟩ := f2 e he
+    exact ⟨s, s', a1, checkSystemTable_sound a2, a3⟩
+
+
 end Redb.Format
